@@ -292,6 +292,26 @@ def run_case(case):
             h = have if isinstance(have, str) else nz(dict(have), Poly.zero)
             if h != want:
                 fails.append(_fail(f"{name} after edges were overwritten by zero == closure of the remaining graph", dict(inp0, method=name), h, want))
+    if n <= 3:
+        # the graph returned by closure() is a NEW object: editing it (new nodes, new edges) leaves the source
+        # graph and its answers unchanged
+        G = build(Poly, n, edges, W)
+        Cg = _call(lambda: G.closure())
+        evals += 1
+        if not isinstance(Cg, str):
+            nodes_before = set(G.N)
+            try:
+                Cg["new1", "new2"] = Poly.var(45)
+                Cg[0, "new1"] = Poly.var(46)
+            except Exception as e:  # noqa: BLE001
+                fails.append(_fail("the graph returned by closure() can be edited", inp0, f"EXC {type(e).__name__}: {e}", "ok"))
+            if set(G.N) != nodes_before:
+                fails.append(_fail("editing the graph returned by closure() leaves the source graph's nodes unchanged", inp0, sorted(map(repr, G.N)), sorted(map(repr, nodes_before))))
+            for name, f in (("closure_reference", lambda: G.closure_reference()), ("closure_scc_based", lambda: G.closure_scc_based())):
+                have = _call(f)
+                h = have if isinstance(have, str) else nz(dict(have), Poly.zero)
+                if h != want:
+                    fails.append(_fail(f"{name} of the source after editing the graph returned by closure()", dict(inp0, method=name), h, want))
     bvars = [Poly.var(20 + i) for i in range(n)]
     for side in ("left", "right"):
         for bname, b in [("indeterminate", {i: bvars[i] for i in range(n)})] + [(f"unit{i}", {i: Poly.one}) for i in range(n)]:
